@@ -197,3 +197,29 @@ fn generated_terms() -> Vec<(&'static str, String)> {
     }
     assert!(checked > 10_000);
 }
+
+// ---- (d) totality on escape windows: \u / \U followed by 0..8 hex digits and then a multi-byte character ----------------
+// (the scanners cut a fixed-width window after the escape marker: a multi-byte character straddling the window end is the
+//  classic way to slice a &str off a character boundary)
+#[test] fn w__parser__total_on_truncated_escapes_next_to_multibyte_characters() {
+    let hex = "0001F64a";
+    let tails = ["", "\u{e9}", "\u{20ac}", "\u{1f600}", "g", "\\", "\u{e9}\u{e9}", "0\u{20ac}"];
+    let wrappers: [(&str, &str); 8] = [
+        ("SELECT * WHERE { ?s <http://e/p> \"", "\" }"), ("SELECT * WHERE { ?s <http://e/p> 'x", "' }"), ("SELECT * WHERE { ?s <http://e/p> \"\"\"", "\"\"\" }"),
+        ("SELECT * WHERE { ?s <http://e/", "> ?o }"), ("SELECT * WHERE { ?s ?p ?o FILTER(?o = \"", "\") }"),
+        ("INSERT DATA { <http://e/s> <http://e/p> \"", "\" }"), ("SELECT * WHERE { ?s <http://e/p> \"a\"@en-", " }"), ("SELECT * WHERE { ?s <http://e/p> \"", ""),
+    ];
+    let mut db = SparqlDatabase::new();
+    let mut count = 0u64;
+    for (open, close) in wrappers { for marker in ["\\u", "\\U", "\\", "\\x"] { for n in 0..=8usize { for tail in tails { for lead in ["", "z", "\u{e9}"] {
+        let text = format!("{}{}{}{}{}{}", open, lead, marker, &hex[..n], tail, close);
+        count += 1;
+        let t1 = text.clone();
+        let _ = no_panic("parse_combined_query", &text, move || parse_combined_query(&t1).map(|_| ()).map_err(|_| ()));
+        let t2 = text.clone();
+        let _ = no_panic("parse_sparql_query", &text, move || parse_sparql_query(&t2).map(|_| ()).map_err(|_| ()));
+        let _ = no_panic("execute_sparql_query", &text, || execute_sparql_query(&text, &mut db).is_ok());
+        let _ = no_panic("execute_sparql_update", &text, || execute_sparql_update(&text, &mut db).is_ok());
+    }}}}}
+    assert!(count > 5000);
+}
